@@ -96,7 +96,8 @@ def getStr (fs : Fields) (n : String) : Str := match (getAll fs n).getLast? with
 def getDouble (fs : Fields) (n : String) : UInt64 := match (getAll fs n).getLast? with | some (.double b) => b | _ => 0
 def getUint (fs : Fields) (n : String) : Nat := match (getAll fs n).getLast? with | some (.uint b) => b.toNat | _ => 0
 def getMsg (fs : Fields) (n : String) : Option Fields := match (getAll fs n).getLast? with | some (.msg m) => some m | _ => none
-def getMsgs (fs : Fields) (n : String) : List Fields := (getAll fs n).filterMap fun v => match v with | .msg m => some m | _ => none
+def asMsg : PVal → Option Fields | .msg m => some m | _ => none
+def getMsgs (fs : Fields) (n : String) : List Fields := (getAll fs n).filterMap asMsg
 
 def bitsToInt (b : UInt64) : Int := if b < 0x8000000000000000 then (b.toNat : Int) else (b.toNat : Int) - 18446744073709551616
 
